@@ -64,7 +64,8 @@ def run_property(pid: str, tier: str, only=None, root=None, selftest=True) -> Re
     rep = Report(pid)
     rep.only = only
     mod.run(ctx, rep)
-    rep.check_floors()
+    if not rep.findings:
+        rep.check_floors()  # anti-vacuity; a run that already reports findings is not a vacuous pass
     rep.extra["call_resolution"] = dict(ctx.world.call_stats)
     if ctx.world.unresolved_sites:
         rep.extra["unresolved_call_sites"] = sorted(set(ctx.world.unresolved_sites))[:40]
